@@ -80,7 +80,12 @@ def gen_actions(rng, w, nmax=60):
 
 def generate(rng, tier):
     o = opts(tier)
-    spec, w, _ = gen.gen_world(rng, o)
+    from .c11 import maybe_daqmx_world
+    spec = maybe_daqmx_world(rng, 0.1)
+    if spec is None:
+        spec, w, _ = gen.gen_world(rng, o)
+    else:
+        w = build(spec)
     return {'spec': spec, 'raw_ts': rng.random() < 0.4, 'backend': rng.choice(['simstream', 'simstream', 'simpath', 'bytesio', 'realpath']),
             'dedup_chunk': rng.choice([1, 2, 3, 100]), 'actions': gen_actions(rng, w),
             'short_seed': rng.getrandbits(32) if rng.random() < 0.2 else None}
@@ -131,7 +136,8 @@ def execute(case):
     raw_ts = case['raw_ts']
     acts = case['actions']
     trace = [(a['a'], a.get('kind'), a.get('op')) for a in acts]
-    res.sig = [shape_sig(spec), trace]
+    from .c04 import _sig
+    res.sig = [_sig(spec), trace]
     with store(short_seed=case['short_seed'], record=False) as st, lib.knobs(dedup_chunk=case['dedup_chunk']):
         st.put('w.tdms', w.data)
         try:
@@ -188,7 +194,10 @@ def execute(case):
                 else:
                     op = {k: v for k, v in a.items() if k != 'a'}
                     full = fulls[op['ch']]
-                    if full[0] == 'dict':
+                    if w.chans[op['ch']].type == 'daqmx':
+                        full = _lazy.op_full(w, w.chans[op['ch']], op, raw_ts)
+                        res.probe('daqmx-op')
+                    if full is None or full[0] == 'dict':
                         res.skipped_ops += 1
                         continue
                     if op['op'] == 'index':
@@ -296,5 +305,6 @@ def shrink_candidates(case):
 
 
 def sample(case):
-    return {'segments': shape_sig(case['spec']), 'backend': case['backend'], 'dedup_chunk': case['dedup_chunk'],
+    from .c04 import _sig
+    return {'segments': _sig(case['spec']), 'backend': case['backend'], 'dedup_chunk': case['dedup_chunk'],
             'actions': case['actions'][:25], 'n_actions': len(case['actions'])}
